@@ -167,3 +167,8 @@ Lemma chans_bury s sid st : chans (bury s sid st) = upd (chans s) (s_ch st) (dro
 Proof. reflexivity. Qed.
 Lemma streams_bury s sid st : streams (bury s sid st) = del (streams s) sid.  Proof. reflexivity. Qed.
 Lemma adds_bury s sid st : adds (bury s sid st) = adds s.  Proof. reflexivity. Qed.
+
+Lemma in_del_lookup {A} (l : list (nat * A)) k k' x : lookup (del l k) k' = Some x -> lookup l k' = Some x.
+Proof.
+  destruct (Nat.eq_dec k' k) as [->|Hne]; [now rewrite lookup_del_same | now rewrite lookup_del_other].
+Qed.
